@@ -168,10 +168,14 @@ pub fn check(ctx: &mut Ctx) {
 		for a share of the histories an abrupt drop of connection 0 is injected after EVERY step (fault placement). Oracle: model of active ids and held permits per connection: unsubscribe answers true iff the id is active on that connection, subscribe is refused with -32006 iff held permits == cap, \
 		is_closed()/closed()/send agree with the model, never more than cap instances, and after all handlers returned `cap` new subscriptions start and one more is refused. Non-trivial = >= 1 refusal or an unsubscribe answered false, with >= 2 instances; distinct by case value."
 		.into();
-	ctx.assumptions = vec!["every step is followed by a run-until-idle barrier, so the model is exact (no concurrency inside a step)".into()];
+	ctx.assumptions = vec![
+		"every step is followed by a run-until-idle barrier, so the model is exact (no concurrency inside a step)".into(),
+		"module-level sub-check: Methods::raw_json_request runs every call on connection id 0; the receiver returned by a subscribe call plays the connection of that subscription".into(),
+	];
 	ctx.run_sub(&Bookkeeping);
+	ctx.run_sub(&crate::props::c06m::ModuleLevel);
 }
 
 pub fn replay(file: &serde_json::Value) -> Option<i32> {
-	replay_with(&Bookkeeping, file, "C06")
+	replay_with(&Bookkeeping, file, "C06").or_else(|| replay_with(&crate::props::c06m::ModuleLevel, file, "C06"))
 }
